@@ -358,7 +358,7 @@ theorem FInv_closed : Closed FInv where
   invFlag := fun s b h => ⟨LInv_closed.invFlag s b h.1, LS_of_sview h.2 rfl⟩
   erase := fun s i h hv he => ⟨LInv_closed.erase s i h.1 hv he, LS_erase (LS_of_sview h.2 (allEmpty_sview s)) i⟩
   reap := fun s sid h ha hr => ⟨LInv_closed.reap s sid h.1 ha hr, LS_reapStep h.2 sid ha hr⟩
-  flagRemoval := fun s f g h => ⟨LInv_closed.flagRemoval s f g h.1, LS_of_sview h.2 rfl⟩
+  flagRemoval := fun s0 s f g h0 h he hf => ⟨LInv_closed.flagRemoval s0 s f g h0.1 h.1 he hf, LS_of_sview h.2 rfl⟩
   flushSinks := fun s h => ⟨LInv_closed.flushSinks s h.1, LS_flushSinks h.2⟩
   readPrep := fun s i h => ⟨LInv_closed.readPrep s i h.1, LS_of_sview h.2 rfl⟩
   commit := fun s i h => ⟨LInv_closed.commit s i h.1, LS_of_sview h.2 rfl⟩
